@@ -29,7 +29,7 @@ AttrsFailing(e) ==
   LET c == Case(e)
       its == Items(c) IN
   IF Conform(ExpectedI(its), e.obs) THEN {}
-  ELSE LET d == DevAttrs(c, its) IN
+  ELSE LET d == DevAttrs(c) IN
        IF DevExplains(d, e.obs) THEN {"dev:" \o d.key}
        ELSE IF e.obs.err # "" THEN {"unexpected_exception"}
        ELSE IF e.obs.spill THEN {"left_the_tag"}
